@@ -319,6 +319,7 @@ class Recorder:
             "newp": self._p(newp) if newp else 0,
             "nlog": len(o.status_log),
             "selk": str(o.selection_id),
+            "lad": getattr(ot, "price_ladder_definition", None) or "CLASSIC",
             "client": o.client.username if o.client is not None else "",
             "bseq": (list(mk.blotter._orders.values()).index(o) if inbl else -1),
         }
@@ -391,6 +392,8 @@ class Recorder:
             "closed": bool(mk.closed),
             "pt": ms_of(mb.publish_time_epoch) if mb is not None else -1,
             "removed": sorted(str(r.selection_id) for r in mb.runners if r.status == "REMOVED") if mb is not None else [],
+            "nactive": int(mb.number_of_active_runners or 0) if mb is not None else 0,
+            "nwin": int(mb.number_of_winners or 0) if mb is not None else 0,
         }
 
     def proj_pkg(self, p):
@@ -556,6 +559,14 @@ def snapshot_req(rec, order):
     }
 
 
+def _lim(x):
+    return pence(x) if x is not None and x < 1e7 else -1
+
+
+def limits_of(strat):
+    return {"maxorder": _lim(strat.max_order_exposure), "maxsel": _lim(strat.max_selection_exposure), "maxmkt": _lim(strat.max_market_exposure)}
+
+
 def _ms(x):
     return int(round(float(x or 0.0) * 1000))
 
@@ -574,6 +585,7 @@ def do_action(rec, strat, market, txn, a):
         "ctx": bool(a.get("ctx_trade")),
         "r": "NOORDER",
     }
+    q.update(limits_of(strat))
     order = None
     try:
         if op == "place":
@@ -620,6 +632,7 @@ def do_action(rec, strat, market, txn, a):
                 mver=(_mver(a, market) if _mver(a, market) is not None else -1),
                 selk=str(order.selection_id),
                 client=(txn._client.username if txn is not None else rec.flumine.clients.get_default().username),
+                lad=getattr(ot, "price_ladder_definition", None) or "CLASSIC",
             )
             q["before"] = snapshot_req(rec, order)
             kw = {}
@@ -893,7 +906,7 @@ def instrument(rec, patches):
             class _SDT:  # emits the "upd" step right after the clock moved
                 def __call__(_self, pt):
                     real_sdt(pt)
-                    rec.last_upd = rec.step("upd", mid=mb.market_id, pt=ms_of(mb.publish_time_epoch), status=mb.status, k=rec.upd_count[mb.market_id], nbooks=len(event.event), will_close=False)
+                    rec.last_upd = rec.step("upd", mid=mb.market_id, pt=ms_of(mb.publish_time_epoch), status=mb.status, k=rec.upd_count[mb.market_id], nbooks=len(event.event), will_close=False, limits={st.name: limits_of(st) for st in self.strategies})
 
                 def __getattr__(_self, name):
                     return getattr(real_sdt, name)
@@ -1094,8 +1107,8 @@ def run_scenario(scn, keep_dir=None, snapshots=True, extra_setup=None):
                 s,
                 market_filter=mf,
                 name=s["name"],
-                max_order_exposure=s.get("max_order_exposure", 1e9),
-                max_selection_exposure=s.get("max_selection_exposure", 1e9),
+                max_order_exposure=s.get("max_order_exposure", 1e9) if "max_order_exposure" not in s else s["max_order_exposure"],
+                max_selection_exposure=s.get("max_selection_exposure", 1e9) if "max_selection_exposure" not in s else s["max_selection_exposure"],
                 max_market_exposure=s.get("max_market_exposure", None),
                 max_trade_count=s.get("max_trade_count", 1e6),
                 max_live_trade_count=s.get("max_live_trade_count", 1000),
